@@ -47,7 +47,8 @@ TABLE: List[Entry] = [
     ("R-HANDOVER", None, None, {"C01", "C02", "C08", "C09"}),
     # ---- multiprocessing parent ----------------------------------------------------------------------------
     ("R-STATS-SLOT", None, None, {"C11", "C17"}),
-    ("R-MARKER", None, "solution-forwarded", {"C01", "C02", "C11"}),
+    ("R-MARKER", None, "solution-forwarded", {"C01", "C02", "C11", "C12"}),  # C12: the union of the parts' solutions reaches the caller
+    ("R-MARKER", None, "marker-recorded", {"C11", "C12"}),  # a healthy part reported dead: the union is never delivered
     ("R-MARKER", None, "completion-flags-fresh", {"C11", "C18"}),
     ("R-MARKER", None, "marker-on-error-path", {"C11", "C19"}),
     ("R-MARKER", None, None, {"C11"}),
@@ -109,6 +110,15 @@ TABLE: List[Entry] = [
     # ---- shaving: the loop's own progress is also a termination matter
     ("R-SHAVE", None, "round-without-probe", {"C02", "C04", "C10"}),
     ("R-SHAVE", None, "no-advance-after-failed-probe", {"C02", "C04", "C10"}),
+    # what the shaving algorithm hands back must be a propagated state with the right status: validity (C01) and fixpoint (C08) under the
+    # shaving configuration; the un-probing is a backtrack to the saved alternative, whose moved bound must be announced (C09)
+    ("R-SHAVE", None, "undo-replay", {"C01", "C02", "C08", "C09", "C10"}),
+    ("R-SHAVE", None, "re-propagation", {"C01", "C02", "C08", "C10"}),
+    ("R-SHAVE", None, "shave-then-exit", {"C01", "C02", "C08", "C10"}),
+    ("R-SHAVE", None, "first-pass-", {"C01", "C02", "C08", "C10"}),
+    ("R-SHAVE", None, "initial-propagation", {"C01", "C02", "C08", "C10"}),
+    ("R-SHAVE", None, "status-", {"C01", "C02", "C08", "C10"}),
+    ("R-SHAVE", None, "final-status", {"C01", "C02", "C08", "C10"}),
     ("R-SHAVE", None, None, {"C02", "C10"}),  # C02: the same multiset of solutions with shaving as with plain bound consistency
     # a raise behind a pointer is mode-dependent behaviour (C15); in the push primitive it is the capacity check that cannot be reported
     # (C19), and on the decision path it leaves the state unchanged so that the search loop never ends (C04)
